@@ -337,13 +337,13 @@ def adaptive_probe(seed):
     rng = random.Random(seed)
     bad, done = [], 0
     specs = []
-    for _ in range(4):
+    for k_spec in range(4):
         a = rng.choice([0.5, 1.0, 2.0]); b = rng.choice([-2.0, -1.0, 1.0]); d1 = rng.choice([0.25, 0.5, 1.0, 1e-4, 0.75]); d2 = rng.choice([0.25, 0.5, 1.25])
-        specs.append((a, b, d1, d2, rng.choice([0.05, 0.1, 0.25]), rng.choice(["past", "t", "edge"])))
+        specs.append((a, b, d1, d2, rng.choice([0.05, 0.1, 0.25]), rng.choice(["past", "t", "edge"]), ["Radau", "LSODA", rng.choice([None, "RK45", "DOP853"]), "BDF"][k_spec]))
     with M.Scratch():
         with warnings.catch_warnings():
             warnings.simplefilter("ignore")
-            for (a, b, d1, d2, dts, form) in specs:
+            for (a, b, d1, d2, dts, form, meth) in specs:
                 T = 3.0
                 x0, z0 = 1.0, 0.5
                 try:
@@ -364,7 +364,7 @@ def adaptive_probe(seed):
                         def f(y, past):
                             return np.array([-a * y[0] + b * past(d1)[0], -y[1] + past(d2)[1] * y[0]])
                     res = c.run(simulation_time=T, step_size=1e-3, sampling_step_size=dts, solver="scipy", outputs={"x": "p/ao/x", "z": "p/ao/z"}, vectorize=False,
-                                float_precision="float64", verbose=False, clear=True)
+                                float_precision="float64", verbose=False, clear=True, **({"method": meth} if meth else {}))
                     # reference: Heun, h = 1/4096, linear interpolation of its own history
                     h = 1.0 / 4096
                     n = int(round(T / h))
@@ -389,9 +389,70 @@ def adaptive_probe(seed):
                     done += 1
                     if not np.all(np.isfinite(got)) or err > 2e-2:
                         k = int(np.argmax(np.max(np.abs(got - ref) / (1.0 + np.abs(ref)), axis=1)))
-                        bad.append({"a": a, "b": b, "d1": d1, "d2": d2, "sampling": dts, "form": form, "max_rel_err": err, "t": float(times[k]), "got": got[k].tolist(), "reference": ref[k].tolist()})
+                        bad.append({"a": a, "b": b, "d1": d1, "d2": d2, "sampling": dts, "form": form, "method": meth, "max_rel_err": err, "t": float(times[k]), "got": got[k].tolist(), "reference": ref[k].tolist()})
                 except Exception as e:
-                    bad.append({"a": a, "b": b, "d1": d1, "d2": d2, "sampling": dts, "form": form, "raise": f"{type(e).__name__}: {str(e)[:200]}"})
+                    bad.append({"a": a, "b": b, "d1": d1, "d2": d2, "sampling": dts, "form": form, "method": meth, "raise": f"{type(e).__name__}: {str(e)[:200]}"})
+                clear_frontend_caches()
+    return {"done": done, "bad": bad}
+
+
+def param_delay_probe(_):
+    """a delay given by a constant of the operator (`past(x, dly)`): the compiled function must read the history at t - <the value of its dly argument>,
+    also when that argument is changed after compilation (a sweep over the delay)"""
+    from pyrates import OperatorTemplate, NodeTemplate, CircuitTemplate, clear_frontend_caches
+    from pyrates.backend.base.base_backend import DDEHistory
+    bad, done = [], 0
+    with M.Scratch():
+        with warnings.catch_warnings():
+            warnings.simplefilter("ignore")
+            # two merged nodes whose delay parameters differ (known finding C10-vectorized-delay-parameter when wrong)
+            try:
+                op = OperatorTemplate(name="pd", equations=["x' = -x + c*past(x, dly)"], variables={"x": "output(1.0)", "c": 2.0, "dly": 0.25}, path=None)
+                n1 = NodeTemplate(name="pdt1", operators=[op], path=None)
+                n2 = NodeTemplate(name="pdt2", operators={op: {"dly": 0.5}}, path=None)
+                cc = CircuitTemplate(name="pdn2", nodes={"a": n1, "b": n2}, edges=[], path=None)
+                func, args, names, smap = cc.get_run_func("pdf2", step_size=0.125, solver="scipy", vectorize=True, float_precision="float64", verbose=False, clear=False, in_place=False)
+                names = list(names)
+                h = DDEHistory(np.array([4.0, 8.0]), t0=0.0)
+                for t_, v_ in ((0.25, [1.0, 2.0]), (0.5, [-3.0, 6.0]), (1.0, [5.0, -2.0])):
+                    h.update(t_, np.array(v_))
+                a = list(args)
+                a[names.index("hist")] = h
+                got = np.asarray(func(0.75, np.array([0.5, 0.5]), *a[2:]), dtype=float).ravel().tolist()
+                exp = [-0.5 + 2 * (-3.0), -0.5 + 2 * 2.0]          # node a reads t - 0.25 = 0.5, node b reads t - 0.5 = 0.25
+                done += 1
+                if got != exp:
+                    bad.append({"known": "C10-vectorized-delay-parameter", "what": "merged nodes with different delay parameters", "got": got, "expected": exp})
+            except Exception as e:
+                bad.append({"what": "merged nodes with different delay parameters", "raise": f"{type(e).__name__}: {str(e)[:200]}"})
+            clear_frontend_caches()
+            for vec in (False,):          # (a single node compiled with vectorize=True indexes a 0-d delay argument and raises - loud, not probed)
+                try:
+                    op = OperatorTemplate(name="pd", equations=["x' = -x + c*past(x, dly)"], variables={"x": "output(1.0)", "c": 2.0, "dly": 0.25}, path=None)
+                    cc = CircuitTemplate(name="pdn", nodes={"p": NodeTemplate(name="pdt", operators=[op], path=None)}, edges=[], path=None)
+                    func, args, names, smap = cc.get_run_func("pdf", step_size=0.125, solver="scipy", vectorize=vec, float_precision="float64", verbose=False, clear=False, in_place=False)
+                    names = list(names)
+                    h = DDEHistory(np.array([4.0]), t0=0.0)
+                    for t_, v_ in ((0.25, 1.0), (0.5, -3.0), (1.0, 5.0)):
+                        h.update(t_, np.array([v_]))
+                    recs = [(F(0), {"x": F(4)}), (F(1, 4), {"x": F(1)}), (F(1, 2), {"x": F(-3)}), (F(1), {"x": F(5)})]
+                    dname = [n for n in names if n.endswith("/dly")]
+                    if not dname:
+                        bad.append({"vectorize": vec, "what": "the delay parameter is not an argument of the compiled function", "names": names})
+                        continue
+                    for dval in (F(1, 4), F(1, 2), F(3, 8), F(1, 8)):
+                        a = list(args)
+                        a[names.index("hist")] = h
+                        i = names.index(dname[0])
+                        a[i] = np.full(np.shape(args[i]), float(dval)) if np.shape(args[i]) else float(dval)
+                        for t_ in (F(3, 4), F(5, 8)):
+                            got = float(np.asarray(func(float(t_), np.array([0.5]), *a[2:]), dtype=float).ravel()[0])
+                            exp = -F(1, 2) + 2 * interp_hist(recs, t_ - dval)["x"]
+                            done += 1
+                            if C.f2s(got) != C.q2s(exp):
+                                bad.append({"vectorize": vec, "delay_argument": str(dval), "t": str(t_), "got": got, "expected": float(exp)})
+                except Exception as e:
+                    bad.append({"vectorize": vec, "raise": f"{type(e).__name__}: {str(e)[:200]}"})
                 clear_frontend_caches()
     return {"done": done, "bad": bad}
 
@@ -494,15 +555,26 @@ def check(tier, seed, replay=None):
     if "crash" in ad:
         raise C.HarnessError("adaptive probe crashed: " + str(ad)[:600])
     rep.count("A-adaptive-run", None, n=ad["done"])
+    pdp = C.run_forked(param_delay_probe, [0], timeout=600)[0] if not replay else {"done": 0, "bad": []}
+    if "crash" in pdp:
+        raise C.HarnessError("parameter-delay probe crashed: " + str(pdp)[:600])
+    rep.count("P-delay-given-by-a-parameter", None, n=pdp["done"])
     rep.cov["streams"].update({"cases_with_deviations": len(bad), "adaptive_probe_failures": len(ad["bad"])})
     if cases:
         rep.sample({"kind": cases[-1]["kind"], "reads": depast(M.flatten(cases[-1]["mdl"]))[1][:3], "impl": {k: (v[:2] if isinstance(v, list) else v) for k, v in impl[-1].items() if k in ("dy", "index")}})
     if bad:
         case, dev = min(bad, key=lambda x: len(json.dumps(x[0]["mdl"])))
         rep.violation(f"a delayed term does not read the past of the trajectory ({dev[0][0]})", {"case": case, "deviations": dev[:4]})
+    active_kf10 = {f["id"] for f in C.load_known_findings() if f.get("property") == PID and f.get("status") == "known"}
+    kfb = [b for b in pdp["bad"] if b.get("known") in active_kf10]
+    for b in kfb:
+        rep.known_finding(b["known"] + ": vectorize=True, a delay given by an operator constant that differs between the merged nodes - every node reads the history with the first node's delay")
+    pdp["bad"] = [b for b in pdp["bad"] if b not in kfb]
+    if pdp["bad"]:
+        rep.violation("a delay given by a parameter is not read from the function's delay argument", {"param_delay": pdp["bad"][:4]})
     if ad["bad"]:
         rep.violation("adaptive run of a delay equation deviates from the fine-step reference solution", {"adaptive": ad["bad"][:3]})
-    if not bad and not ad["bad"] and not proof_ok:
+    if not bad and not ad["bad"] and not pdp["bad"] and not proof_ok:
         why = {"proof_ok": proof_ok, "build_log_tail": detail["build_log_tail"], "forbidden": detail["forbidden"],
                "audit_failures": (detail["audit"] or {}).get("failures"), "broken": "theorems of PyRatesModel.Props.C10 (build/audit)"}
         rep.violation("C10 is no longer shown to hold: " + why["broken"], why, no_input=True, name="unproved")
